@@ -124,7 +124,13 @@ ComplexLayoutOK(p, st) ==
 DimsOK(p, st) ==
   LET ld == LDims(p, Prod(st.shape)) want == IF AxisOrder(p.lang) = "col" THEN Rev(st.shape) ELSE st.shape IN
   IF p.post = "complex_firstaxis"
-  THEN (ld = <<2>> \o Rev(st.shape) /\ p.ncolons = Len(st.shape))
+  THEN /\ ld = <<2>> \o Rev(st.shape) /\ p.ncolons = Len(st.shape)
+       (* a(1,:,..,:) has dimensions <<1>> \o Rev(shape); squeeze() removes EVERY singleton dimension of it, *)
+       (* matrix(.., dims) gives it the stated ones; the result must have the reversed stored shape (a      *)
+       (* vector may come back as a row or a column)                                                        *)
+       /\ LET final == IF p.slicefix = "squeeze" THEN NoOnes(Rev(st.shape)) ELSE p.finaldims IN
+            \/ Len(st.shape) = 1
+            \/ StripTrail(final) = StripTrail(Rev(st.shape))
   ELSE /\ (IF DropsTrailingOnes(p.lang) THEN StripTrail(ld) = StripTrail(want) ELSE ld = want)
        /\ ((p.reshape # Absent /\ p.readdims # Absent) => Prod(p.reshape) = Prod(p.readdims))
 (* element with C index c (0-based) is the element with language index Rev(c): in a   *)
